@@ -1,4 +1,5 @@
 import HmcVerif.Props.C06
+import HmcVerif.Real.FoldVolumeO
 open HmcVerif.C06
 #print axioms misfit_outside
 #print axioms misfit_inf_outside
@@ -17,3 +18,5 @@ open HmcVerif.C06
 #print axioms hmc_chain_stays_in_box
 #print axioms corrector_lands_in_box
 #print axioms HmcVerif.BoxTree.ebox_support
+-- the corrector lands in the closed box for every kind of box (two-sided, one-sided, none) - Real/FoldVolumeO.lean
+#print axioms HmcVerif.correctorR_inBox1
